@@ -44,6 +44,15 @@ def gen_cases(ctx):
         a = [gen.rand_dyadic(rng, 5, 4) for _ in range(m)]
         b = [gen.rand_dyadic(rng, 5, 4) for _ in range(m)] if rng.random() < 0.8 else list(a)
         cases.append(("random", W, a, b))
+    # the relation depends on a - b only: the same small differences far away from the origin (offsets 2^17 .. 2^30,
+    # everything still exactly representable), for the named cones
+    for cones, m in ((gen.CONES_2D, 2), (gen.CONES_3D, 3)):
+        for cn, (W, _) in cones.items():
+            for _ in range(12 if ctx.quick else 200):
+                off = [Fraction(rng.choice([-3, -1, 1, 2, 5]) * 2 ** rng.choice([17, 20, 24, 30])) for _ in range(m)]
+                a = [gen.rand_dyadic(rng, 2, 2) for _ in range(m)]
+                b = [gen.rand_dyadic(rng, 2, 2) for _ in range(m)]
+                cases.append((cn + "+offset", W, [x + o for x, o in zip(a, off)], [x + o for x, o in zip(b, off)]))
     return cases
 
 
